@@ -3,6 +3,7 @@
    comparison with what the effect-skeleton model of Heap/Effects.v computes on the same input
    (F_DISAGREE). *)
 From BT Require Import Base.Prelude Base.Str Heap.Forest Heap.Effects Spec.PC07.
+From BT Require Heap.Dag.
 
 Inductive fnk :=
 | FRaised                                   (* the call raised: only "input unchanged" applies       *)
@@ -15,11 +16,16 @@ Inductive fnk :=
 | FSubtree (start found : id) (md : nat)    (* get_subtree                                            *)
 | FPrune (start : id) (targets : list id) (exact : bool) (md : nat)     (* prune_tree                *)
 | FDiff                                     (* get_tree_diff (either argument is the input)           *)
-| FCopyOut.                                 (* copy_nodes_from_tree_to_tree / copy_and_replace_...: the
+| FCopyOut                                  (* copy_nodes_from_tree_to_tree / copy_and_replace_...: the
                                                input is the source tree, the "result" the destination *)
+| FCopyNodes (exact : bool)                 (* copy_nodes inside one tree: the input is the subtree that is
+                                               copied, the result the copy found at the destination path *)
+| FDagCopy (start : id)                     (* DAGNode.copy(), copy.deepcopy                          *)
+| FDagShallow (start : id)                  (* copy.copy(dagnode)                                     *)
+| FDagExport (start : id).                  (* dag_to_dict / dag_to_dataframe                         *)
 
 Record ecase := EC {
-  ec_cls : nat;                             (* 0 Node, 1 BinaryNode                                   *)
+  ec_cls : nat;                             (* 0 Node, 1 BinaryNode, 2 DAGNode                        *)
   ec_fn : fnk;
   ec_n : nat;                               (* nodes of the input: ids 0..n-1, anything else >= n     *)
   ec_before : sig;
@@ -32,7 +38,9 @@ Record ecase := EC {
   ec_result : option (rt * id * list id);   (* tree handed back (from its root), the returned node, its ancestors *)
   ec_after_mr : option sig;                 (* input after the result was mutated                      *)
   ec_res12 : option (rt * rt);              (* result before / after the input was mutated            *)
-  ec_data : option (nat * nat)              (* exporters: rendering of the data before / after the input was mutated *)
+  ec_data : option (nat * nat);             (* exporters: rendering of the data before / after the input was mutated *)
+  ec_dres : option (list dnode * id);       (* DAG handed back: its nodes, the returned node           *)
+  ec_dres12 : option (list dnode * list dnode)   (* ... before / after the input was mutated         *)
 }.
 
 (* ------------------------------------------------------------------------------------------ *)
@@ -45,8 +53,12 @@ Definition equal_mode (f : fnk) : option (id * bool) :=
   | FShallowCopy st => Some (st, true)
   | FSubtree _ found md => Some (found, Nat.eqb md 0)
   | FPrune _ _ _ _ => Some (0, false)
+  | FCopyNodes ex => Some (0, ex)
   | _ => None
   end.
+
+Definition dag_start (f : fnk) : option id :=
+  match f with FDagCopy st | FDagShallow st => Some st | _ => None end.
 
 Definition result_ids (r : rt * id * list id) : list id :=
   let '(t, ret, up) := r in ret :: up ++ rt_ids t.
@@ -65,14 +77,21 @@ Definition observed (c : ecase) : clauses :=
   CL (sig_eqb (ec_before c) (ec_after c))
      (match ec_result c with
       | Some r => disjoint_ids (seq 0 (ec_n c)) (result_ids r)
-      | None => true end)
+      | None => true end
+      && match ec_dres c with
+         | Some (res, ret) => disjoint_ids (seq 0 (ec_n c)) (ret :: dres_ids res)
+         | None => true end)
      (disjoint_ids (ec_in_lists c) (ec_out_lists c))
      (disjoint_ids (ec_in_vals c) (ec_out_vals c))
      (match ec_result c, equal_mode (ec_fn c) with
       | Some (t, _, _), Some (anchor, exact) => result_equal_part exact (ec_before c) anchor t
-      | _, _ => true end)
+      | _, _ => true end
+      && match ec_dres c, dag_start (ec_fn c) with
+         | Some (res, ret), Some st => dag_equal_part (ec_before c) st res ret
+         | _, _ => true end)
      (match ec_after_mr c with Some s => sig_eqb (ec_before c) s | None => true end)
      (match ec_res12 c with Some (a, b) => rt_eqb a b | None => true end
+      && match ec_dres12 c with Some (a, b) => dres_eqb a b | None => true end
       && match ec_data c with Some (a, b) => Nat.eqb a b | None => true end).
 
 Definition all_clauses (k : clauses) : bool :=
@@ -84,7 +103,7 @@ Definition prop_C07 (c : ecase) : bool := all_clauses (observed c).
 (* ------------------------------------------------------------------------------------------ *)
 (* the model on the same input *)
 
-Definition dflt_entry : entry := E None [] [] [] None.
+Definition dflt_entry : entry := E [] [] [] [] None.
 Definition entry_of (s : sig) (x : id) : entry := nth x (sg_entries s) dflt_entry.
 
 Definition max_list (l : list nat) : nat := fold_left Nat.max l 0.
@@ -99,7 +118,7 @@ Definition vsz_of (c : ecase) : nat :=
 Definition heap_of (c : ecase) : eheap :=
   let b := ec_before c in
   EH (mk (ec_n c)
-         (fun x => e_par (entry_of b x))
+         (fun x => hd_error (e_pars (entry_of b x)))
          (fun x => somes (e_kids (entry_of b x)))
          (fun x => e_name (entry_of b x))
          (fun _ => [47%N]))
@@ -110,7 +129,7 @@ Definition heap_of (c : ecase) : eheap :=
 (* the input is inside the modelled domain: Node class, links among 0..n-1, private = public *)
 Definition clean_sig (n : nat) (s : sig) : bool :=
   Nat.eqb (length (sg_entries s)) n
-  && forallb (fun e => match e_par e with Some p => Nat.ltb p n | None => true end
+  && forallb (fun e => Nat.leb (length (e_pars e)) 1 && forallb (fun p => Nat.ltb p n) (e_pars e)
                        && forallb (fun o => match o with Some k => Nat.ltb k n | None => false end) (e_kids e)
                        && match e_priv e with None => true | Some _ => false end) (sg_entries s).
 
@@ -123,7 +142,7 @@ Fixpoint walk (fuel : nat) (s : forest) (x : id) : list id :=
 (* what the harness would record on the model state for the input nodes *)
 Definition observe (n : nat) (h : eheap) : sig :=
   SG (walk n (fr h) 0)
-     (map (fun x => E (par (fr h) x) (map Some (kids (fr h) x)) (name (fr h) x) (att h x) None) (seq 0 n)).
+     (map (fun x => E (match par (fr h) x with Some p => [p] | None => [] end) (map Some (kids (fr h) x)) (name (fr h) x) (att h x) None) (seq 0 n)).
 
 Fixpoint heap_rt (fuel : nat) (h : eheap) (x : id) : rt :=
   RT x (name (fr h) x) (att h x) (kl h x)
@@ -153,7 +172,7 @@ Definition model (c : ecase) : option (eheap * option id) :=
   | FClone st => let '(h', r) := sk_clone cfg0 h st in Some (h', Some r)
   | FSubtree st found md => let '(h', r) := sk_get_subtree cfg0 h st found md in Some (h', Some r)
   | FPrune st ts ex md => let '(h', r) := sk_prune cfg0 h st ts ex md in Some (h', Some r)
-  | FDiff | FCopyOut => None
+  | _ => None
   end.
 
 (* identities / addresses up to the naming of fresh objects *)
@@ -202,7 +221,7 @@ Definition predicted (c : ecase) : clauses :=
                                 (sg_entries (ec_before c)) in
   let all := CL true true true true true true true in
   match ec_fn c with
-  | FShallowCopy _ => CL true false false (negb input_has_vals) true false false
+  | FShallowCopy _ | FDagShallow _ => CL true false false (negb input_has_vals) true false false
   | FClone _ =>
       (* attribute values are handed over by reference (K5-C07) *)
       let shared := input_has_vals in
@@ -260,8 +279,38 @@ Definition agree_nodes (c : ecase) : bool :=
   | None => true
   end.
 
+(* DAGNode: the DAG skeleton allocates one node per member of the connected part; a shallow copy
+   allocates exactly one *)
+Definition dag_of (c : ecase) : Dag.dag :=
+  let b := ec_before c in
+  Dag.mkdag (ec_n c) (fun x => e_pars (entry_of b x)) (fun x => somes (e_kids (entry_of b x)))
+            (fun x => e_name (entry_of b x)).
+
+Definition agree_dag (c : ecase) : bool :=
+  match ec_fn c, ec_dres c with
+  | FDagCopy st, Some (res, ret) =>
+      let s := dag_of c in
+      let '(s', r) := dsk_copy s st in
+      Nat.eqb (length res) (Dag.dsize s' - Dag.dsize s)
+      && Nat.leb (ec_n c) r
+      && match find (fun d : dnode => Nat.eqb (fst d) ret) res with
+         | Some d => Nat.eqb (length (e_pars (snd d))) (length (Dag.parents s' r))
+                     && Nat.eqb (length (e_kids (snd d))) (length (Dag.children s' r))
+                     && str_eqb (e_name (snd d)) (Dag.dname s' r)
+         | None => false end
+  | FDagShallow st, Some (res, ret) =>
+      let '(s', r) := dshallow_copy (dag_of c) st in
+      Nat.eqb (length res) 1
+      && match res with
+         | [d] => list_eqb Nat.eqb (e_pars (snd d)) (Dag.parents s' r)
+                  && list_eqb Nat.eqb (somes (e_kids (snd d))) (Dag.children s' r)
+         | _ => false end
+  | (FDagCopy _ | FDagShallow _), None => false
+  | _, _ => true
+  end.
+
 Definition agree_C07 (c : ecase) : bool :=
-  implc (predicted c) (observed c) && agree_run c && agree_binary_clone c && agree_nodes c.
+  implc (predicted c) (observed c) && agree_run c && agree_binary_clone c && agree_nodes c && agree_dag c.
 
 Definition well_formed_case (c : ecase) : bool :=
   Nat.eqb (length (sg_entries (ec_before c))) (ec_n c)
